@@ -5,13 +5,21 @@ Space I: amplifier template x magnitude lattice (bounded-exhaustive, nothing sam
 amp       every template of verif.props.c12_templates (a file of about 2 KB or less with ONE magnitude hole n, or a "grow" template
           whose size is proportional to n) x every magnitude of its lattice (hole: 10^0..10^6 quick / ..10^9, 2^31-1, 2^31+1, 2^32-1
           thorough; 16-/8-bit fields: up to 65535 / 255; grow: 1..10^3 / ..10^5; entity bombs: expansion 10^1..10^6 / ..10^9).
+          .doc has no reference writer; its templates (c12_templates, section "OLE2 host: DOC") write the little the reader needs from
+          [MS-DOC]: n picture headers (BITMAPINFOHEADER back to back / spread; declared by biSizeImage, by width x height, with a
+          colour table; overshooting the stream; PNG signatures sharing one IEND, in the WordDocument and in the table stream, with and
+          without IEND) inside ONE declared picture extent of a 256 KiB stream, n = 1..1000 quick / ..6000 thorough (the file size does
+          not depend on n); the four FIB character counts as holes; the property-set forgeries of the .xls / .ppt hosts.
           A case is {"t": template id, "n": magnitude}.  The file is extracted through the extractor that the router selects for
           its name (list(extractor(BytesIO(data), name)) + get_full_text() of every result) under the deterministic cost meter
           verif.props.c12_meter (sys.monitoring LINE events inside sharepoint2text / olefile / xlrd / openpyxl / pypdf, tracemalloc
           peak, MemoryError under RLIMIT_AS = 3 GiB, CPU-time back-stop).  Clause `cost`:
               events <= 2*10^6 + 2000 * size      peak additional memory <= 32 MiB + 64 * size
           size = uncompressed input size (ZIP package: sum of member sizes; archive: file + members within the per-member limit).
-limits    read_file(max_file_size=m) for m in {0, 1, s-1, s, s+1} (s = file size; txt, docx, zip);  a 7z archive of 100 MiB -1/0/+1
+limits    read_file(path, max_file_size=m) for m in {0, 1, s-1, s, s+1} (txt, docx, zip) x what the path IS (PATH_KINDS: regular file as
+          str / pathlib.Path, absolute / relative symbolic link, link to a link, link whose target path is longer than the file,
+          file behind a symbolic link to its directory, second hard link, sparse file (txt only)); s = the number of bytes
+          open(path).read() returns, i.e. the size of what read_file would read, whatever a size probe says;  a 7z archive of 100 MiB -1/0/+1
           bytes through the extractor, read_file(max_file_size=0) and read_file();  archive members of limit -1/0/+1 bytes in zip
           (stored, deflated), tar, tar.gz, 7z (copy, LZMA2; one folder per member) for the default per-member limit (10 MiB) and
           for configure_archive_extraction(max_memory_size=1000 | 65536), with monitors on ZipFile.read/open, TarFile.extractfile,
@@ -184,26 +192,82 @@ def _run_read_file(path, **kw):
         return e, []
 
 
-def eval_max_file_size(case):
-    name, data = _small_file(case["ext"])
-    s = len(data)
-    m = {"0": 0, "1": 1, "s-1": s - 1, "s": s, "s+1": s + 1}[case["m"]]
-    path = os.path.join(_tmpdir(), f"mfs-{os.getpid()}-{name}")
-    with open(path, "wb") as f:
+PATH_KINDS = ("reg", "pathobj", "sym", "symrel", "sym2", "symlong", "symdir", "hard", "sparse")
+SPARSE_SIZE = MIB
+
+
+def _place(kind, name, data):
+    """puts the file into a fresh directory and returns (directory, the path to hand to read_file, the size a reader of that path
+    gets).  kind says what the path IS (what is read is always the same file):
+        reg      the regular file itself (str)                  pathobj  the same as a pathlib.Path
+        sym      absolute symbolic link to it                   symrel   relative symbolic link (target = a bare file name)
+        sym2     link to a link to it                           symlong  link whose target PATH is longer than the file (the file sits
+                                                                         in a directory with a 200-character name)
+        symdir   regular file reached through a symbolic link to its directory
+        hard     second hard link to the same inode
+        sparse   regular file extended by a hole to SPARSE_SIZE bytes (apparent size = what read() returns; few blocks allocated)"""
+    d = tempfile.mkdtemp(prefix="mfs-", dir=_tmpdir())
+    real_dir = os.path.join(d, "r" * 200) if kind == "symlong" else os.path.join(d, "real")
+    os.mkdir(real_dir)
+    real = os.path.join(real_dir, name)
+    with open(real, "wb") as f:
         f.write(data)
+        if kind == "sparse":
+            f.truncate(SPARSE_SIZE)
+    size = os.stat(real).st_size
+    if kind in ("reg", "sparse"):
+        return d, real, size
+    if kind == "pathobj":
+        import pathlib
+        return d, pathlib.Path(real), size
+    if kind == "symdir":
+        os.symlink(real_dir, os.path.join(d, "dirlink"))
+        return d, os.path.join(d, "dirlink", name), size
+    path = os.path.join(d, "l-" + name)
+    if kind in ("sym", "symlong"):
+        os.symlink(real, path)
+    elif kind == "symrel":
+        path = os.path.join(real_dir, "l-" + name)
+        os.symlink(name, path)
+    elif kind == "sym2":
+        mid = os.path.join(d, "m-" + name)
+        os.symlink(real, mid)
+        os.symlink(mid, path)
+    elif kind == "hard":
+        os.link(real, path)
+    else:
+        raise ValueError(kind)
+    return d, path, size
+
+
+def eval_max_file_size(case):
+    """the size that decides is the size of what read_file is going to READ through the path it was given: s = number of bytes
+    open(path, 'rb').read() returns (measured here, independently of any stat call)"""
+    name, data = _small_file(case["ext"])
+    kind = case.get("via", "reg")
+    d, path, _st = _place(kind, name, data)
     try:
+        with open(path, "rb") as f:
+            s = 0
+            while True:
+                chunk = f.read(1 << 20)
+                if not chunk:
+                    break
+                s += len(chunk)
+        m = {"0": 0, "1": 1, "s-1": s - 1, "s": s, "s+1": s + 1}[case["m"]]
         exc, res = _run_read_file(path, max_file_size=m)
     finally:
-        os.remove(path)
+        shutil.rmtree(d, True)
+    what = f"read_file({name}, max_file_size={m}) on a file of {s} bytes" + ("" if kind in ("reg",) else f" [path kind: {kind}]")
     must_refuse = m > 0 and s > m
     fails = []
     if must_refuse and not isinstance(exc, _too_large()):
-        fails.append(("max_file_size", f"read_file({name}, max_file_size={m}) on a file of {s} bytes must raise ExtractionFileTooLargeError; "
+        fails.append(("max_file_size", f"{what} must raise ExtractionFileTooLargeError; "
                                        f"got {type(exc).__name__ if exc else '%d results' % len(res)}"))
     if not must_refuse and isinstance(exc, _too_large()):
-        fails.append(("max_file_size", f"read_file({name}, max_file_size={m}) on a file of {s} bytes must not refuse the file "
+        fails.append(("max_file_size", f"{what} must not refuse the file "
                                        f"({'0 disables the check' if m == 0 else 'size <= limit'}); got {type(exc).__name__}: {exc}"))
-    return {"fails": fails, "outcome": f"mfs:{'refused' if isinstance(exc, _too_large()) else ('exc:' + type(exc).__name__ if exc else 'ok')}"}
+    return {"fails": fails, "outcome": f"mfs:{kind}:{'refused' if isinstance(exc, _too_large()) else ('exc:' + type(exc).__name__ if exc else 'ok')}"}
 
 
 def sevenz_of_size(total):
@@ -529,6 +593,16 @@ def shrinks(case):
         if case["c"] in ("zip-d", "tar.gz"):
             yield dict(case, c={"zip-d": "zip-s", "tar.gz": "tar"}[case["c"]])
         return
+    if case.get("k") == "max_file_size":
+        # the plainest member of the same path class first: plain text, the direct absolute link
+        via = case.get("via", "reg")
+        if _via_class(via) == "symlink" and via != "sym":
+            yield dict(case, via="sym")
+        if via == "pathobj":
+            yield {k: v for k, v in case.items() if k != "via"}
+        if case["ext"] != "txt":
+            yield dict(case, ext="txt")
+        return
     if case.get("k", "amp") != "amp":
         return
     from verif.props import c12_templates as T
@@ -544,7 +618,13 @@ def embeds(small, big):
         return small["t"] == big["t"] and big["n"] >= small["n"]
     if small.get("k") == "member_limit":
         return _family(small["c"]) == _family(big["c"]) and small["d"] == big["d"]
+    if small.get("k") == "max_file_size":
+        return small["m"] == big["m"] and _via_class(small.get("via", "reg")) == _via_class(big.get("via", "reg"))
     return small == big
+
+
+def _via_class(via):
+    return {"reg": "regular", "pathobj": "regular", "sym": "symlink", "symrel": "symlink", "sym2": "symlink", "symlong": "symlink"}.get(via, via)
 
 
 def _family(c):
@@ -557,6 +637,8 @@ def fingerprint_view(case):
         return {"t": case["t"]}
     if case.get("k") == "member_limit":
         return {"k": "member_limit", "container": _family(case["c"]), "d": case["d"]}
+    if case.get("k") == "max_file_size" and case.get("via", "reg") != "reg":
+        return {"k": "max_file_size", "m": case["m"], "path": _via_class(case["via"])}
     return case
 
 
@@ -568,8 +650,11 @@ def cases(tier):
         for n in T.magnitudes(tid, tier):
             out.append({"t": tid, "n": n})
     for ext in ("txt", "docx", "zip"):
-        for m in ("0", "1", "s-1", "s", "s+1"):
-            out.append({"k": "max_file_size", "ext": ext, "m": m})
+        for via in PATH_KINDS:
+            if via == "sparse" and ext != "txt":
+                continue                       # a hole behind a ZIP package would hide its end-of-central-directory record
+            for m in ("0", "1", "s-1", "s", "s+1"):
+                out.append({"k": "max_file_size", "ext": ext, "m": m} if via == "reg" else {"k": "max_file_size", "ext": ext, "m": m, "via": via})
     for via in ("extractor", "read_file0", "read_file"):
         for d in (-1, 0, 1):
             out.append({"k": "7z_limit", "via": via, "d": d})
@@ -726,7 +811,9 @@ def run(ctx):
            "slowest_cases_cpu_s": [{"cpu": c, "case": json.loads(k)} for c, k in slow[:12]],
            "within_budget_but_above_half": sorted(near, key=lambda x: json.dumps(x["case"], sort_keys=True)),
            "over_budget_magnitudes": {k: sorted(v) for k, v in sorted(amp_over.items())},
-           "bounds": {"tier": ctx.tier, "lattices": {k: v[0 if ctx.quick else 1] for k, v in T.MAGS.items()}}}
+           "bounds": {"tier": ctx.tier, "lattices": {k: v[0 if ctx.quick else 1] for k, v in T.MAGS.items()},
+                      "doc_picture_headers": T.DOC_PIC_MAGS[0 if ctx.quick else 1], "doc_stream_bytes": T.DOC_STREAM,
+                      "max_file_size_path_kinds": list(PATH_KINDS), "max_file_size_limits": ["0", "1", "s-1", "s", "s+1"]}}
     assumptions = [
         "uncompressed input size: ZIP packages = sum of the (honest) uncompressed member sizes; archives = file size + members that are "
         "within the per-member limit (an oversize member must be skipped without decompression, so it buys no budget)",
@@ -740,7 +827,10 @@ def run(ctx):
         "size' is not settled by the statement)",
         "Python code of the standard library (email, html.parser, zipfile, tarfile, xml) is not counted by the line-event meter (the "
         "property names the packages); it is covered by the memory counter and the CPU back-stop only",
-        ".doc and .msg have no writer: no amplifier templates for them (their OLE property sets are parsed by the same olefile code "
-        "as the .xls / .ppt templates)",
+        ".msg has no writer: no amplifier templates for it (its OLE property sets are parsed by the same olefile code as the .xls / "
+        ".ppt / .doc templates); .doc templates are written directly from [MS-DOC] (FIB + cp1252 text + picture area)",
+        "max_file_size: 'a file larger than max_file_size' is the file that read_file opens and reads through the given path (a "
+        "symbolic link counts with the size of its target); only paths whose content cannot change between probe and read are "
+        "enumerated (no growing files, FIFOs or /proc entries)",
     ]
     return {"coverage": cov, "failures": fails, "harness_errors": herr, "assumptions": assumptions}
